@@ -30,8 +30,13 @@ BAK = ["absent", "absent", "intact", "intact", "intact", "truncate", "zerofill",
 
 def gen(rng, tier, index):
     version = rng.choice(["1.4", "1.5", "2.0", "2.1", "2.2"])
+    flavour = rng.choice(["serial", "serial", "aserial", "amqtt", "tcp"])
+    sched = None
+    if flavour in ("aserial", "amqtt") and rng.random() < 0.6:
+        # loop, loading executor thread and whatever else start-up sets going are scheduled at random (not "first come first served")
+        sched = {"policy": "rw", "seed": rng.getrandbits(32), "p": rng.choice([0.0, 0.0, 0.02])}
     return {
-        "cfg": {"version": version, "fmt": rng.choice(["pickle", "json"]), "flavour": rng.choice(["serial", "serial", "aserial", "amqtt", "tcp"]),
+        "cfg": {"version": version, "fmt": rng.choice(["pickle", "json"]), "flavour": flavour, "sched": sched,
                 "main": rng.choice(MAIN), "bak": rng.choice(BAK), "k": rng.random(), "kb": rng.random(),
                 "relpath": rng.choice([None, None, "mysensors", "some_folder/mysensors", "./data/../ms"])},
         "state": diskutil.state_lines(rng, version, rng.randint(1, 25)),
@@ -58,7 +63,8 @@ def _damage(data, how, frac):
 def run(case):
     cfg = case["cfg"]
     flavour = cfg["flavour"]
-    dw = diskutil.DiskWorld(cfg["version"], cfg["fmt"], flavour=flavour, relpath=cfg.get("relpath"))
+    dw = diskutil.DiskWorld(cfg["version"], cfg["fmt"], flavour=flavour, relpath=cfg.get("relpath"), sched=cfg.get("sched"),
+                            max_steps=1_500_000 if cfg.get("sched") else 400_000)
     violations, probes, faults = [], {}, {}
     incomplete = None
     key = None
